@@ -220,12 +220,14 @@ def run_pair(oexe, nexe, case, counters, cache=None):
 
 def norm_msg(err):
     """a stable short token out of a compiler / linker / sanitizer message"""
+    mu = re.search(r'undefined reference to [`\'"‘]?(\w+)', err)
     m = re.search(r'(?:error|Error): (.{0,90})', err)
-    if m:
+    if mu:
+        t = 'undefined-reference-to-' + mu.group(1)
+    elif m:
         t = m.group(1)
     else:
-        m = re.search(r'undefined reference to [`\'"]?(\w+)', err)
-        t = 'undefined-reference-' + m.group(1) if m else err.strip().splitlines()[-1] if err.strip() else 'unknown'
+        t = err.strip().splitlines()[-1] if err.strip() else 'unknown'
     t = re.sub(r"[‘’'`\"]", '', t)
     t = re.sub(r'\b(ia|ra|la|wr|wi)\d\b', 'ARR', t)
     t = re.sub(r'\d+', 'N', t)
